@@ -28,7 +28,7 @@ THOROUGH_ONLY = (
     "urwid/display/common.py:AttrSpec.foreground",
     "urwid/display/common.py:AttrSpec.__set_foreground",
     "urwid/util.py:rle_product",
-    "urwid/canvas.py:TextCanvas.__init__#two-rows",  # 2775 paths, ~6 min on one core (the one-row instance runs in the quick tier)
+    "urwid/canvas.py:TextCanvas.__init__#two-rows",  # 4810 paths, ~9 min on one core (the one-row instance runs in the quick tier)
 )
 SHARDS.update({
     "urwid/canvas.py:TextCanvas.__init__#up-to-one-row": (12, 6),
